@@ -102,6 +102,7 @@ fn main() {
                 "c08_poison" => ("C08", c08::part_poison(tier)),
                 "c08_dap" => ("C08", c08::part_dap_args(tier)),
                 "c16_sweep" => ("C16", c16::part_sweep(tier)),
+                "c14_badaddr" => ("C14", c01::part_c14_refused_addresses(tier)),
                 "c19_closures" => ("C19", c19::part_c19_closures(tier)),
                 "c16_vard" => ("C16", c06s::part_vard(tier)),
                 "c18_shlib" => ("C18", c18s::part_shlib(tier)),
@@ -109,6 +110,7 @@ fn main() {
                 "c17_crates" => ("C17", c17e::part_crates(tier)),
                 "c12_second" => ("C12", c12::part_second_lifecycle(tier)),
                 "c13_overlap" => ("C13", c12::part_c13_overlap(tier)),
+                "c13_data" => ("C13", c12::part_c13_data(tier)),
                 "c14_scope" => ("C14", c14s::part_scope(tier)),
                 "c03_inl" => ("C03", c01::part_c03_inlined(tier)),
                 "c19_regs" => ("C19", c19r::part_registers(tier, "C19")),
@@ -260,19 +262,25 @@ fn run_check(id: &str, tier: Tier) -> i32 {
         "C13" => {
             let mut r = Report::new("C13", tier, "model_checking");
             // the two explorations are independent (8 session threads each): run them side by side
-            let (a, b) = std::thread::scope(|sc| {
-                let h = sc.spawn(|| c12::part_c13_overlap(tier));
+            let (a, b, c) = std::thread::scope(|sc| {
+                let h = sc.spawn(|| {
+                    let b = c12::part_c13_overlap(tier);
+                    (b, c12::part_c13_data(tier))
+                });
                 let a = c12::part_c13(tier);
-                (a, h.join().expect("overlap part"))
+                let (b, c) = h.join().expect("overlap / data parts");
+                (a, b, c)
             });
             r.parts.push(a);
             r.parts.push(b);
+            r.parts.push(c);
             finish(r)
         }
         "C14" => {
             let mut r = Report::new("C14", tier, "model_checking");
             r.parts.push(c14::part_dr7(tier));
             r.parts.push(c01::part_c14_regs(tier));
+            r.parts.push(c01::part_c14_refused_addresses(tier));
             r.parts.push(mt::part_c14_threads(tier));
             r.parts.push(simk::part_c14_sim(tier));
             r.parts.push(c14s::part_scope(tier));
@@ -342,6 +350,8 @@ fn replay(path: &str) -> i32 {
         "dap" => dapx::replay(rp),
         "c15" => c15::replay(rp),
         "c16" => c16::replay(rp),
+        "e2e-script" => c01::replay_bad_addresses(rp),
+        "c13-data" => c12::replay_c13_data(rp),
         "c19" => c19::replay(rp),
         "c19-closure" => match c19::run_closure(rp["move"].as_bool().unwrap_or(true)) {
             Ok(v) => {
